@@ -269,6 +269,37 @@ fn pure_cases(opts: &Opts, rep: &mut Report) {
             one_pure(rep, &Expr::Audience(want.to_string()), &c2, "strings-own-claim");
         }
     }
+    // (2b) related strings: the claim is the expected string extended / truncated by every length
+    //      1..=600 (padding with a letter, with NUL, with the string itself), in both directions
+    for base in ["admin", "", "issuer", &"long-subject-".repeat(25)] {
+        for delta in 1..=600usize {
+            idx += 1;
+            if !opts.mine(idx) {
+                continue;
+            }
+            let mut variants: Vec<String> = vec![
+                format!("{base}{}", "x".repeat(delta)),
+                format!("{base}{}", "\0".repeat(delta)),
+                format!("{}{base}", "x".repeat(delta)),
+                base.chars().cycle().take(if base.is_empty() { 0 } else { base.chars().count() + delta }).collect(),
+            ];
+            if delta <= base.len() && base.is_char_boundary(base.len() - delta) {
+                variants.push(base[..base.len() - delta].to_string());
+                variants.push(base[delta..].to_string());
+            }
+            for v in variants {
+                if v == base {
+                    continue;
+                }
+                for (want, have) in [(base.to_string(), v.clone()), (v.clone(), base.to_string())] {
+                    let c = RegisteredClaims { iss: Some(have.clone()), sub: Some(have.clone()), aud: Some(have.clone()), ..Default::default() };
+                    one_pure(rep, &Expr::Issuer(want.clone()), &c, "related-strings");
+                    one_pure(rep, &Expr::Subject(want.clone()), &c, "related-strings");
+                    one_pure(rep, &Expr::Audience(want.clone()), &c, "related-strings");
+                }
+            }
+        }
+    }
     // (3) random expressions to depth 3 over random claims
     for _ in 0..opts.size(20000, 400000) {
         idx += 1;
@@ -407,7 +438,7 @@ pub fn run(opts: &Opts) {
     }
     rep.set(
         "rule",
-        json!("(1) exhaustive boundary grid: exp, nbf in {absent, now, now+-1ns, now+-L, now+-L+-1ns, MIN, MAX} x now in {epoch, 2025, near jiff MIN, near jiff MAX} x L in {0, 1ns, 1s, 1h} with now+-L representable, for Time, TimeWithLeeway, HasExpiry; (2) issuer/subject/audience against absent/equal/prefix/case/empty/NUL variants; (3) random validator expressions to depth 3 over and_then, Vec, Box<[_]>, Box, Rc, Arc, map, NoValidation and scripted leaves, built as Box<dyn Validate>, on random claims with boundary timestamps; (4) map projections onto one of two claim sets; (5) verdicts pushed through real seal -> parse -> unseal(validator) on every backend and both purposes; oracle = formulas over i128 nanoseconds and recursive conjunction; distinct = distinct (validator expression, claims)"),
+        json!("(2b) related strings: expected vs claim strings that are extensions / truncations / repetitions of each other by every length 1..=600, both directions, all three string validators; (1) exhaustive boundary grid: exp, nbf in {absent, now, now+-1ns, now+-L, now+-L+-1ns, MIN, MAX} x now in {epoch, 2025, near jiff MIN, near jiff MAX} x L in {0, 1ns, 1s, 1h} with now+-L representable, for Time, TimeWithLeeway, HasExpiry; (2) issuer/subject/audience against absent/equal/prefix/case/empty/NUL variants; (3) random validator expressions to depth 3 over and_then, Vec, Box<[_]>, Box, Rc, Arc, map, NoValidation and scripted leaves, built as Box<dyn Validate>, on random claims with boundary timestamps; (4) map projections onto one of two claim sets; (5) verdicts pushed through real seal -> parse -> unseal(validator) on every backend and both purposes; oracle = formulas over i128 nanoseconds and recursive conjunction; distinct = distinct (validator expression, claims)"),
     );
     rep.finish(opts);
 }
